@@ -9,6 +9,7 @@ access to unmapped or read-only memory -- the Python and the GCC back ends, run 
 the same registers, flags, memory, exception flags and breakpoint hits.  The LLVM back end cannot run in the sandbox (no llvmlite):
 it is not covered, and the claim is limited accordingly."""
 import random
+import sys
 
 from harness.bounded import BoundedContract, chunked
 from props import jitrun
@@ -31,7 +32,8 @@ PROPERTY = {
     "trusted_base": ["CPython, gcc; neither back end is taken as the reference: a difference is a violation whichever side is wrong "
                      "(a defect shared by both -- e.g. in the lifter -- is not seen here); generator and comparison are written in "
                      "props/jitrun.py / props/C20.py"],
-    "assumptions": ["x86-32 guests only (the other architectures' JitCore extensions are not built by the harness)", "LLVM back end "
+    "assumptions": ["x86-32 and ARM (little endian) guests (the other architectures' JitCore extensions are not built by the harness); the ARM "
+                    "family has ~40 instruction forms, no faults", "LLVM back end "
                     "not available (no llvmlite)", "seeded family: 48 quick / 600 thorough programs"],
 }
 
@@ -155,6 +157,140 @@ class BackendCases(BoundedContract):
         return (True, "", True)
 
 
+# ARM (little endian) ---------------------------------------------------------------------------------------------------------------
+
+ARM_POOL = ["ADDS R%d, R%d, R%d", "SUBS R%d, R%d, 0x10", "ANDS R%d, R%d, R%d", "ORRS R%d, R%d, 0xFF", "EORS R%d, R%d, R%d", "MOVS R%d, R%d",
+            "CMP R%d, R%d", "TST R%d, 0x1", "MUL R%d, R%d, R%d", "MULS R%d, R%d, R%d", "MOV R%d, R%d LSL 0x3", "MOV R%d, R%d LSR R%d",
+            "MOVS R%d, R%d ASR 0x1F", "ADD R%d, R%d, R%d LSL 0x2", "RSBS R%d, R%d, 0x0", "ADCS R%d, R%d, R%d", "SBCS R%d, R%d, R%d", "MVN R%d, R%d",
+            "BIC R%d, R%d, 0xF0", "ADDEQ R%d, R%d, 0x1", "MOVNE R%d, 0x5", "SUBGT R%d, R%d, R%d", "CLZ R%d, R%d", "UMULL R%d, R%d, R%d, R%d",
+            "SMULL R%d, R%d, R%d, R%d", "MLA R%d, R%d, R%d, R%d", "REV R%d, R%d", "UBFX R%d, R%d, 0x4, 0x8", "BFC R%d, 0x4, 0x4",
+            "RSC R%d, R%d, R%d", "TEQ R%d, R%d", "CMN R%d, 0x1", "MOVS R%d, R%d LSL R%d", "ADDS R%d, R%d, R%d ROR 0x7", "MOVS R%d, R%d RRX"]
+ARM_MEM = ["LDR R%d, [R11, 0x%x]", "STR R%d, [R11, 0x%x]", "LDRB R%d, [R11, 0x%x]", "STRB R%d, [R11, 0x%x]", "LDRH R%d, [R11, 0x%x]", "STRH R%d, [R11, 0x%x]",
+           "LDRSB R%d, [R11, 0x%x]"]
+
+
+def arm_instr(rng):
+    if rng.random() < 0.25:
+        t = rng.choice(ARM_MEM)
+        off = rng.randrange(0, 32)
+        if "H" in t.split()[0]:
+            off &= ~1
+        elif t.split()[0] in ("LDR", "STR"):
+            off &= ~3
+        return t % (rng.randrange(0, 9), off)
+    t = rng.choice(ARM_POOL)
+    n = t.count("%d")
+    regs = [rng.randrange(0, 9) for _ in range(n)]
+    if t.startswith(("UMULL", "SMULL")) and regs[0] == regs[1]:
+        regs[1] = (regs[0] + 1) % 9
+    if t.startswith(("MUL", "MLA", "UMULL", "SMULL")) and regs[0] == regs[-2 if t.startswith("MLA") else 1 if t.startswith("MUL") else 2]:
+        pass
+    return t % tuple(regs)
+
+
+def arm_program(rng):
+    lines = ["main:", "    MOV R12, LR"]
+    n = rng.randint(2, 5)
+    for i in range(n):
+        lines.append("g%d:" % i)
+        lines += ["    " + arm_instr(rng) for _ in range(rng.randint(4, 12))]
+        if rng.random() < 0.3:
+            lines.append("    BL sub")
+        if i + 1 < n and rng.random() < 0.7:
+            lines.append("    CMP R%d, R%d" % (rng.randrange(9), rng.randrange(9)))
+            lines.append("    B%s g%d" % (rng.choice(("EQ", "NE", "CS", "CC", "MI", "VS", "HI", "GE", "LT", "GT", "LE")), rng.randrange(i + 1, n)))
+    lines += ["    CMP R0, R1", "    BX R12", "sub:", "    ADD R9, R9, 0x3", "    EORS R10, R10, R9", "    BX LR"]
+    return "\n".join(lines) + "\n"
+
+
+class BackendCasesArm(BoundedContract):
+    BOUND = "seeded family of ARM (little endian) programs from a pool of ~40 instruction forms (props/C20.py)"
+    CASE_SECONDS = 300
+
+    def funcs(self):
+        jitrun.build_exts()
+        from miasm.arch.arm.jit import arm_CGen
+        from miasm.jitter.jitcore_python import JitCore_Python
+        return [arm_CGen.block2assignblks, JitCore_Python.add_block]
+
+    def cases(self):
+        return list(range(32 if self.tier == "quick" else 400))
+
+    def gen(self, case):
+        rng = random.Random(20200 + case)
+        return rng, arm_program(rng)
+
+    def show(self, case):
+        return "ARM program #%d: %s" % (case, jitrun.show_program(self.gen(case)[1]))
+
+    def check(self, case):
+        b = jitrun.build_exts()
+        from miasm.analysis.machine import Machine
+        from miasm.arch.arm.arch import mn_arm
+        from miasm.core import asmblock, parse_asm
+        from miasm.core.interval import interval
+        from miasm.core.locationdb import LocationDB
+        from miasm.jitter.csts import PAGE_READ, PAGE_WRITE
+        rng, text = self.gen(case)
+        loc_db = LocationDB()
+        try:
+            asmcfg = parse_asm.parse_txt(mn_arm, "l", text, loc_db)
+            loc_db.set_location_offset(loc_db.get_name_location("main"), jitrun.CODE)
+            patches = asmblock.asm_resolve_final(mn_arm, asmcfg, interval([(jitrun.CODE, jitrun.CODE + 0xF00)]))
+        except Exception as ex:     # noqa
+            return (False, "harness: the ARM program does not assemble (%s: %s)" % (type(ex).__name__, str(ex)[:120]), True)
+        code = bytearray(0x1000)
+        for o, d in patches.items():
+            code[o - jitrun.CODE:o - jitrun.CODE + len(d)] = d
+        regs = dict(("R%d" % i, rng.choice((0, 1, 0xFFFFFFFF, 0x80000000, 0x7FFFFFFF, rng.getrandbits(32), rng.getrandbits(8)))) for i in range(11))
+        flags = dict((f, rng.getrandbits(1)) for f in ("zf", "nf", "of", "cf"))
+        data = bytes(rng.getrandbits(8) for _ in range(0x40))
+        results = []
+        for backend, maxline in (("python", 50), ("gcc", 50), ("gcc", rng.choice((1, 2, 3)))):
+            j = Machine("arml").jitter(LocationDB(), backend)
+            if type(j.cpu).__module__ != "JitCore_arm" or not sys.modules["miasm.jitter.arch.JitCore_arm"].__file__.startswith(b["dir"]):
+                return (False, "harness: the ARM jitter does not use the extension compiled from the tree", True)
+            if backend == "gcc":
+                j.jit.libs = list(b["libs_arm"])
+                j.jit.tempdir = b["cache"]
+            j.jit.set_options(jit_maxline=maxline)
+            j.vm.add_memory_page(jitrun.CODE, PAGE_READ | PAGE_WRITE, bytes(code), "code")
+            j.vm.add_memory_page(jitrun.DATA, PAGE_READ | PAGE_WRITE, b"\x00" * 0x100 + data + b"\x00" * (0x1000 - 0x100 - len(data)), "data")
+            j.init_stack()
+            for r, v in regs.items():
+                setattr(j.cpu, r, v)
+            for f, v in flags.items():
+                setattr(j.cpu, f, v)
+            j.cpu.R11 = jitrun.DATA + 0x100
+            j.cpu.LR = jitrun.END
+            j.add_breakpoint(jitrun.END, lambda jj: False)
+            steps = [0]
+
+            def cb(jj):
+                steps[0] += 1
+                return steps[0] < 2000
+            j.exec_cb = cb
+            try:
+                j.init_run(jitrun.CODE)
+                res = j.continue_run()
+            except Exception as ex:     # noqa
+                return (False, "%s back end (jit_maxline %d): the run raises %s: %s" % (backend, maxline, type(ex).__name__, str(ex)[:200]), True)
+            st = {"pc": j.pc, "res": res, "exc": (j.vm.get_exception(), j.cpu.get_exception()), "data": j.vm.get_mem(jitrun.DATA, 0x1000)}
+            for r in ["R%d" % i for i in range(13)] + ["SP", "LR", "zf", "nf", "of", "cf"]:
+                st[r] = getattr(j.cpu, r)
+            results.append((backend, maxline, st))
+        b0, m0, s0 = results[0]
+        for b1, m1, s1 in results[1:]:
+            for k in s0:
+                if s0[k] != s1[k]:
+                    if k == "data":
+                        o = next(o for o in range(0x1000) if s0[k][o] != s1[k][o])
+                        return (False, "data byte %#x = %#04x under %s (jit_maxline %d), %#04x under %s" % (jitrun.DATA + o, s1[k][o], b1, m1, s0[k][o], b0), True)
+                    return (False, "%s = %r under %s (jit_maxline %d), %r under %s" % (k, s1[k] if not isinstance(s1[k], int) else hex(s1[k]), b1, m1,
+                                                                                       s0[k] if not isinstance(s0[k], int) else hex(s0[k]), b0), True)
+        return (True, "", True)
+
+
 def targets(tier):
-    return chunked(BackendCases, "C20/backends", 16, tier)
+    return chunked(BackendCases, "C20/backends", 16, tier) + chunked(BackendCasesArm, "C20/backends-arm", 16, tier)
 
